@@ -668,7 +668,7 @@ class Ref(object):
     #    memoised only when no cut happened underneath)
     def validate(self, tree, budget=200000):
         self.solve()
-        self._vmemo = {}; self._vactive = set(); self._vcuts = 0; self._vbudget = budget
+        self._vmemo = {}; self._vactive = set(); self._vused = set(); self._vapprox = {}; self._vbudget = budget
         kids = (tree,)
         for p in sorted(self.after(0)):
             if (self.n, 1) in self.v_item(['n', self.start], p, kids, 0, False):
@@ -701,34 +701,44 @@ class Ref(object):
                     out |= {(j, a) for j in self.after(e)}
             return out
         if k == 'n':
+            # (rule, position, child index) may legitimately be re-entered by left recursion (the inner occurrence
+            # ends earlier) and by derivation cycles: the result set is grown to its least fix-point ("seed growing");
+            # a result is memoised only if it did not use the approximation of another call still in progress
             key = (x[1], i, id(kids), a)
             got = self._vmemo.get(key)
             if got is not None: return got
             if key in self._vactive:
-                self._vcuts += 1
-                return set()
+                self._vused.add(key)
+                return self._vapprox[key]
             self._vactive.add(key)
-            cuts0 = self._vcuts
+            self._vapprox[key] = set()
+            before = frozenset(self._vused)
             try:
                 r = self.rules[x[1]]
                 kp = r['keep'] or self.keep_all
-                out = set()
-                for alt in r['alts']:
-                    if i not in range(self.n + 1) or not self._e(['n', x[1]] if False else x, i):
+                while True:
+                    out = set()
+                    for alt in r['alts']:
+                        if r['inline']:
+                            out |= self.v_items(alt['items'], 0, i, kids, a, kp)
+                            continue
+                        collapsible = r['expand1'] and not alt.get('alias')
+                        if collapsible:
+                            out |= {(j, b) for j, b in self.v_items(alt['items'], 0, i, kids, a, kp) if b == a + 1}
+                        if a < len(kids) and kids[a] is not None and kids[a][0] == 'N' and kids[a][1] == (alt.get('alias') or r['display']):
+                            sub = kids[a][2]
+                            if not (collapsible and len(sub) == 1):
+                                out |= {(j, a + 1) for j, b in self.v_items(alt['items'], 0, i, sub, 0, kp) if b == len(sub)}
+                    if out == self._vapprox[key] or key not in self._vused:
                         break
-                    if r['inline']:
-                        out |= self.v_items(alt['items'], 0, i, kids, a, kp)
-                        continue
-                    collapsible = r['expand1'] and not alt.get('alias')
-                    if collapsible:
-                        out |= {(j, b) for j, b in self.v_items(alt['items'], 0, i, kids, a, kp) if b == a + 1}
-                    if a < len(kids) and kids[a] is not None and kids[a][0] == 'N' and kids[a][1] == (alt.get('alias') or r['display']):
-                        sub = kids[a][2]
-                        if not (collapsible and len(sub) == 1):
-                            out |= {(j, a + 1) for j, b in self.v_items(alt['items'], 0, i, sub, 0, kp) if b == len(sub)}
+                    self._vapprox[key] = out
             finally:
                 self._vactive.discard(key)
-            if self._vcuts == cuts0:
+                del self._vapprox[key]
+            mine = self._vused - before
+            mine.discard(key)
+            self._vused = set(before) | mine
+            if not mine:
                 self._vmemo[key] = out
             return out
         if k == 'grp':
